@@ -72,6 +72,10 @@ func (h *DirHandler) SentCount() int    { return countFiles(path.Join(h.MBoxPath
 func (h *DirHandler) ArchiveCount() int { return countFiles(path.Join(h.MBoxPath, DIR_ARCHIVE)) }
 
 func (h *DirHandler) AddOut(msg *fbb.Message) error {
+	if err := checkMID(msg.MID()); err != nil {
+		return err
+	}
+
 	data, err := msg.Bytes()
 	if err != nil {
 		return err
@@ -83,6 +87,9 @@ func (h *DirHandler) AddOut(msg *fbb.Message) error {
 func (h *DirHandler) ProcessInbound(msgs ...*fbb.Message) (err error) {
 	dir := path.Join(h.MBoxPath, DIR_INBOX)
 	for _, m := range msgs {
+		if err := checkMID(m.MID()); err != nil {
+			return fmt.Errorf("Unable to write received message: %s", err)
+		}
 		filename := path.Join(dir, m.MID()+Ext)
 
 		m.Header.Set("X-Unread", "true")
@@ -104,6 +111,12 @@ func (h *DirHandler) GetInboundAnswer(p fbb.Proposal) fbb.ProposalAnswer {
 		return fbb.Defer
 	}
 
+	// A message we will not be able to store can't have been received (and should not be transferred)
+	if err := checkMID(p.MID()); err != nil {
+		log.Printf("Deferring proposal: %s", err)
+		return fbb.Defer
+	}
+
 	// Check if file exists
 	f, err := os.Open(path.Join(h.MBoxPath, DIR_INBOX, p.MID()+Ext))
 	if err == nil {
@@ -119,6 +132,10 @@ func (h *DirHandler) GetInboundAnswer(p fbb.Proposal) fbb.ProposalAnswer {
 }
 
 func (h *DirHandler) SetSent(MID string, rejected bool) {
+	if err := checkMID(MID); err != nil {
+		log.Fatalf("Unable to mark message as sent: %s", err)
+	}
+
 	oldPath := path.Join(h.MBoxPath, DIR_OUTBOX, MID+Ext)
 	newPath := path.Join(h.MBoxPath, DIR_SENT, MID+Ext)
 
@@ -199,6 +216,18 @@ func ensureDirStructure(mboxPath string) (err error) {
 		return
 	}
 	return
+}
+
+// checkMID returns an error unless mid can be used as the name of a message file.
+//
+// The MID of a received message (and of a proposal) is chosen by the remote node. It must be a
+// single path element, so that the file name built from it always refers to a file in one of the
+// mailbox directories. Names starting with a dot are not listed by LoadMessageDir.
+func checkMID(mid string) error {
+	if mid == "" || mid[0] == '.' || strings.ContainsAny(mid, "/\\\x00") {
+		return fmt.Errorf("MID %q can not be used as a file name", mid)
+	}
+	return nil
 }
 
 func UserPath(root, callsign string) string {
